@@ -156,7 +156,9 @@ MALFORMED = ['P2SH', 'p2sh', '+p2sh', '+P2SHH', '+P2S', '+', '-', ',', '+P2SH,',
 
 # a flag modification that never reaches the flags because the option itself is misspelled / incomplete: running the script under the UNMODIFIED
 # set instead would be the opposite of "the effective set is exactly the modified one" - it has to be refused like a malformed list
-BAD_OPTIONS = [['--modify-flgs=-MINIMALDATA'], ['--modifyflags=-MINIMALDATA'], ['-F-MINIMALDATA'], ['--modify-flags'], ['-f']]
+BAD_OPTIONS = [['--modify-flgs=-MINIMALDATA'], ['--modifyflags=-MINIMALDATA'], ['-F-MINIMALDATA'], ['--modify-flags'], ['-f'],
+               # the option given twice: every +NAME / -NAME on the command line has to take effect (or the repetition is refused): not just the last list
+               ['--modify-flags=-MINIMALDATA', '--modify-flags=-NULLDUMMY'], ['-f-MINIMALDATA', '-f+SIGPUSHONLY'], ['--modify-flags=-NO_SUCH_FLAG', '--modify-flags=-MINIMALDATA']]
 
 
 def check_malformed(text, ctx):
